@@ -46,19 +46,19 @@ def worker(case):
             dec = None
         mode = case.get("mode", "plain")
         if mode == "plain":
-            rd = core.run_zh(case["zh"], cdir, gen.reader_script("f.zck", sizes=case["sizes"], extra=3), {"f.zck": data}, name="read")
+            rd = core.run_zh(case["zh"], cdir, gen.reader_script("f.zck", sizes=case["sizes"], extra=3), {"f.zck": data}, name="read", slow_retry=case.get("zh_plain"))
         elif mode == "clear":
             # the caller clears the (recoverable) error after the failing read and keeps reading with small buffers
             L = ["fopen 1 f.zck r input", "create 1", "init_read 1 1", "readall 1 0 %s" % " ".join(str(x) for x in case["sizes"])]
             for n in (1, 100, 1000, 4096, 7, 100000):
                 L += ["clear_error 1", "read 1 %d" % n]
             L += ["close 1"]
-            rd = core.run_zh(case["zh"], cdir, "\n".join(L) + "\n", {"f.zck": data}, name="read")
+            rd = core.run_zh(case["zh"], cdir, "\n".join(L) + "\n", {"f.zck": data}, name="read", slow_retry=case.get("zh_plain"))
         else:
             # validated while intact, then the stored bytes change on disk, then the stream is read
             L = ["fopen 1 f.zck rw input", "create 1", "init_read 1 1", "%s 1" % case.get("pre", "vc"), "poke 1 %d x:%02x" % (pos, data[pos]),
                  "readall 1 3 %s" % " ".join(str(x) for x in case["sizes"]), "close 1"]
-            rd = core.run_zh(case["zh"], cdir, "\n".join(L) + "\n", {"f.zck": base}, name="read")
+            rd = core.run_zh(case["zh"], cdir, "\n".join(L) + "\n", {"f.zck": base}, name="read", slow_retry=case.get("zh_plain"))
         if rd.timed_out and not rd.cpu_exceeded:
             return core.verdict(cid, "inconclusive", detail="watchdog", case=case)
         cs = core.crash_signatures(rd)
@@ -122,8 +122,8 @@ def worker(case):
 
 class C15(core.Check):
     prop = "C15"
-    flavours = ["asan"]
-    rule = ("zstd files (3-6 chunks, with/without dictionary, with/without uncompressed-source flag) x single-bit flips of body bytes "
+    flavours = ["asan", "plain"]   # plain: only to confirm CPU-bound overruns seen under ASan
+    rule = ("zstd files (3-6 small chunks; and manual chunks of 0.3-4 MB, beyond what the automatic chunker produces, with/without dictionary, with/without uncompressed-source flag) x single-bit flips of body bytes "
             "(sampled in quick, every bit of every body byte in thorough) x read sizes {1,100,chunk-1,chunk,chunk+1,32768}; after the first "
             "error three more reads are issued; variants: the caller clears the error and keeps reading with small buffers; the file is validated while "
             "intact, then damaged on disk, then read. non-trivial = the corrupted chunk still decompresses (so only the checksum can stop it)")
@@ -131,7 +131,7 @@ class C15(core.Check):
     worker = staticmethod(worker)
 
     def prepare(self, fl):
-        return {"zh": build.zh(fl["asan"])}
+        return {"zh": build.zh(fl["asan"]), "zh_plain": build.zh(fl["plain"])}
 
     def cases(self, ctx):
         r = core.rng(self.seed, "C15", "flip")
@@ -140,6 +140,34 @@ class C15(core.Check):
             raise RuntimeError("no zstd base files")
         self.count("base_files", len(bases))
         out = []
+        # big chunks (manual chunking; the automatic chunker never exceeds 128 KiB): an implementation that treats large chunks
+        # differently (streaming decompression, buffer reuse) must still verify before it releases
+        bigspecs = [([50000, 1300000, 20000], False, "text"), ([2200000, 30000], True, "mixed"), ([300000, 600000, 100000], False, "license")]
+        if not self.quick:
+            bigspecs += [([1048576, 1048575, 1048577], False, "text"), ([4000000], True, "text"), ([140000, 131072, 70000, 262144], True, "mixed")]
+        for bi, (sizes_, dct, kind) in enumerate(bigspecs):
+            pieces = [gen.content(kind, n, 50 + bi * 7 + j) for j, n in enumerate(sizes_)]
+            seg = []
+            for pc in pieces:
+                seg += [len(pc), "e"]
+            cfg = {"comp": 2, "manual": True, "chunk_hash": r.choice([0, 1, 2, 3]), "full_hash": 1, "level": 1, "cmax": 10 << 20}
+            db = gen.content("license", 2000, 3) if dct else None
+            data = basefiles.write_with_lib(ctx["zh"], os.path.join(self.work, "big%d" % bi), b"".join(pieces), cfg, seg, db)
+            if data is None:
+                continue
+            self.count("big_chunk_base_files", 1)
+            p = zckref.parse(data)
+            big = max(p.chunks[1:], key=lambda c: c["len"])
+            a0 = p.header_len + big["start"]
+            spots = [a0 + 5, a0 + big["comp_len"] // 3, a0 + big["comp_len"] // 2, a0 + big["comp_len"] - 40, a0 + big["comp_len"] - 2]
+            spots += [a0 + r.randrange(big["comp_len"]) for _ in range(3 if self.quick else 40)]
+            for pos in spots:
+                bit = r.randrange(8)
+                for sizes in r.sample([[4096], [32768], [100000], [big["len"] + 1], [big["len"] - 1], [7000, 1, 65536]], 2 if self.quick else 4):
+                    out.append({"base": "big%d" % bi, "data": core.b64(data), "pos": pos, "bit": bit, "sizes": sizes, "zh": ctx["zh"], "zh_plain": ctx.get("zh_plain")})
+                out.append({"base": "big%d" % bi, "data": core.b64(data), "pos": pos, "bit": bit, "sizes": [32768], "zh": ctx["zh"], "zh_plain": ctx.get("zh_plain"), "mode": "clear"})
+                out.append({"base": "big%d" % bi, "data": core.b64(data), "pos": pos, "bit": bit, "sizes": r.choice([[4096], [65536]]), "zh": ctx["zh"], "zh_plain": ctx.get("zh_plain"),
+                            "mode": "tamper", "pre": r.choice(["vc", "fv"])})
         per = 40 if self.quick else None
         for b in bases:
             p = zckref.parse(b["data"])
